@@ -37,7 +37,7 @@ def mesh3(nb0=3):
     return {"ndims": 3, "domain": [4, 4, 2],
             "levels": [[[[0, 0, 0], [1, 3, 1]], [[2, 0, 0], [3, 1, 1]], [[2, 2, 0], [3, 3, 1]]],
                        [[[2, 2, 0], [5, 5, 3]], [[0, 6, 0], [1, 7, 1]], [[6, 0, 2], [7, 1, 3]], [[0, 0, 0], [1, 1, 1]]]],
-            "fields": ["temp", "density", "Z"], "payload": "signed",
+            "fields": ["temp", "density", "Z"], "payload": ["signed", "signed", "boxcancel"],
             "layout": [{"files": [[1], [0], [2]], "nums": [2, 0, 1]}, {"files": [[3, 0], [1], [2]], "nums": [0, 1, 2]}]}
 
 
@@ -133,7 +133,7 @@ def t_mandoline3d(env, out, serial):
         m = Mandoline(env["p3"], fields=["temp", "Z", "grid_level"], serial=serial, verbose=0)
         # two slices on one object: the serial mode runs the tasks on the parent's own arrays
         return [m.slice(normal=2, pos=env["pos3"], fformat="return"), m.slice(normal=0, pos=env["pos3x"], fformat="return"),
-                m.slice(normal=2, pos=env["pos3"], fformat="return")]
+                m.slice(normal=0, pos=env["pos3gap"], fformat="return"), m.slice(normal=2, pos=env["pos3"], fformat="return")]
 
 
 def t_mandoline3d_plt(env, out, serial):
@@ -153,7 +153,9 @@ def t_pestle(env, out, serial):
     from amr_kitchen import PlotfileCooker
     from amr_kitchen.pestle import volume_integral
     return [volume_integral(PlotfileCooker(env["p3"], ghost=True), "temp"),
-            volume_integral(PlotfileCooker(env["p3"], ghost=True), "density", limit_level=0)]
+            volume_integral(PlotfileCooker(env["p3"], ghost=True), "density", limit_level=0),
+            volume_integral(PlotfileCooker(env["p3"], ghost=True), "Z"),          # box sums cancel: any regrouping shows
+            volume_integral(PlotfileCooker(env["p3"], ghost=True), "Z", limit_level=0)]
 
 
 def t_whip(env, out, serial):
@@ -300,6 +302,7 @@ def make_env(workdir, seed):
         f.write(RECIPE)
     env["pos3"] = ref3.geo_lo[2] + 1.25 * ref3.dx[1][2]
     env["pos3x"] = ref3.geo_lo[0] + 2.0 * ref3.dx[0][0]
+    env["pos3gap"] = ref3.geo_lo[0] + 2.25 * ref3.dx[0][0]       # in the half-cell gap next to a face shared by two level-0 boxes
     cd = {"domain": [4, 4, 4], "levels": [[[[0, 0, 0], [3, 3, 1]], [[0, 0, 2], [3, 3, 3]]], [[[2, 2, 2], [5, 5, 5]], [[0, 0, 0], [1, 1, 3]], [[6, 6, 0], [7, 7, 7]]]],
           "nspecies": 2, "ghost": 2, "seed": seed,
           "layouts": {"state": [{"files": [[1], [0]], "nums": [0, 1]}, {"files": [[1], [2, 0]], "nums": [1, 0]}],
